@@ -123,6 +123,24 @@ def bs_before_unencodable(val, encoding):
     return False
 
 
+def raw_texts(text, toks):
+    """source text of each token, from the positions the tokenizer reports; None if they do not tile the text"""
+    starts = [0]
+    for i, ch in enumerate(text):
+        if ch == '\n':
+            starts.append(i + 1)
+    offs = []
+    for t in toks:
+        line, col = t[2], t[3]
+        if not (1 <= line <= len(starts)):
+            return None
+        offs.append(starts[line - 1] + col - 1)
+    offs.append(len(text))
+    if any(a > b for a, b in zip(offs, offs[1:])) or (offs and offs[0] != 0):
+        return None
+    return [text[a:b] for a, b in zip(offs, offs[1:])]
+
+
 def token_regions(cssutils, text, tk=None, encoding='utf-8', ident_form='either', base_depth=0):
     """set of known-finding ids whose region contains a token of `text`.
     ident_form: which written form of identifier-like tokens counts — 'verbatim', 'normalized' (property names,
@@ -136,7 +154,9 @@ def token_regions(cssutils, text, tk=None, encoding='utf-8', ident_form='either'
         return regs
     depth = base_depth   # 1 for a text that is placed inside a block by a DOM edit
     at = None      # the at-rule whose prelude we are in
-    for typ, val, _l, _c in toks:
+    raws = raw_texts(text, toks[:-1] if toks and toks[-1][0] == 'EOF' else toks)
+    for k, (typ, val, _l, _c) in enumerate(toks):
+        raw = raws[k] if raws is not None and k < len(raws) else None
         if typ == 'CHAR' and val == '{':
             depth += 1
             at = None
@@ -158,6 +178,13 @@ def token_regions(cssutils, text, tk=None, encoding='utf-8', ident_form='either'
             regs.add('C03-backslash-before-unencodable')
         if typ == 'STRING':
             cls = C.str_class(helper.stringvalue(val))
+            if cls and raw is not None and len(raw) >= 2 and raw[0] in '"\'':
+                # the parser can store such a value only from these two source forms (checked exhaustively for short
+                # token texts by corr_image); anything else is a new defect and is not attributed
+                body = raw[1:-1] if raw[-1] == raw[0] else raw[1:]
+                if not (C.region_clean_after_unescape(body) or C.region_escaped_dquote(body, raw[0])):
+                    cls = None
+                    regs.add('!unexplained-unsafe-string')
             if cls:
                 regs.add(kf_for_class(cls, 'STRING'))
         elif typ == 'URI':
